@@ -21,7 +21,10 @@ def rewrite(h, mapping):
     """Independent 20-line rewriter: replace every occurrence of a key of ``mapping`` in ``h``."""
     try:
         if h in mapping:
-            return mapping[h]
+            # the replacement is itself a hint: other keys occurring inside it are replaced too
+            # (an occurrence of the key inside its own replacement is not replaced again)
+            rest = {k: v for k, v in mapping.items() if k != h}
+            return rewrite(mapping[h], rest) if rest else mapping[h]
     except TypeError:
         pass
     origin = typing.get_origin(h)
@@ -52,6 +55,9 @@ OVERRIDE_SETS = [
     [['int', 'str']], [['int', 'int|None']], [['str', 'str|bytes']], [['UA', 'UB']], [['UA', 'UA|None']],
     [['List[int]', 'Tuple[int,...]']], [['List[int]', 'List[str]']], [['int', 'float|int'], ['str', 'bytes']],
     [['float', 'float|int']], [['int', 'Lit1']], [['str', 'Set[str]']],
+    # chained overrides: the replacement of one key mentions another key
+    [['int', 'int|str'], ['str', 'str|bytes']], [['UA', 'UA|None'], ['None', 'int']],
+    [['bytes', 'str|bytes'], ['str', 'int|str']],
 ]
 
 
@@ -84,6 +90,12 @@ def cases(tier, seed):
                 continue
             out.append((name, h, {'hint_overrides': ov},
                         {'gen': 'c18', 'tier': tier, 'seed': seed, 'name': name, 'mode': 'override', 'ov': ov}))
+    # numeric tower combined with an override whose replacement mentions float
+    for name, h in hs:
+        if _mentions(h, str) and (tier != 'quick' or hash(name) % 3 == 0):
+            ov = [['str', 'str|float']]
+            out.append((name, h, {'hint_overrides': ov, 'is_pep484_tower': True},
+                        {'gen': 'c18', 'tier': tier, 'seed': seed, 'name': name, 'mode': 'override+tower', 'ov': ov}))
     # violation-type family never changes the verdict
     vt = [{'violation_type': 'VerifWarning'}, {'violation_type': 'VerifError'},
           {'violation_door_type': 'VerifWarning', 'violation_param_type': 'VerifError'},
@@ -112,6 +124,10 @@ def rewritten_hint(h, src):
         return rewrite(h, TOWER_MAP)
     if src['mode'] == 'override':
         return rewrite(h, {grammar.OVERRIDE_HINTS[a]: grammar.OVERRIDE_HINTS[b] for a, b in src['ov']})
+    if src['mode'] == 'override+tower':
+        m = {grammar.OVERRIDE_HINTS[a]: grammar.OVERRIDE_HINTS[b] for a, b in src['ov']}
+        m.update(TOWER_MAP)
+        return rewrite(h, m)
     return h
 
 
